@@ -66,7 +66,7 @@ def run(ctx):
     writes = collections.Counter()
     for o in obs:
         c = cases[o["case"]]
-        if o["k"] == "walk" and c["expect"] == "pages" and o["err"] == "OK" and o["ended"]:
+        if o["k"] in ("walk", "sched") and c["expect"] == "pages" and o["err"] == "OK" and o["ended"]:
             if o["lens"] == c["lens"]:
                 same += 1
             else:
@@ -90,7 +90,9 @@ def run(ctx):
                        "-5..0, 1, 2, 3, 7, 50, 1000, 5000 and random ones, with random id sets drawn from a dense "
                        "prefix-closed key space over a digit, upper/lower case, accented and CJK characters (many ids are "
                        "prefixes of each other; byte order differs from case-folded / collated order); plus 9 classes of corrupted / "
-                       "foreign first tokens per scheme; each case runs on every model server of its token scheme "
+                       "foreign first tokens per scheme; plus walks whose page size changes from call to call (growing, shrinking, "
+                       "0 = default, at / around / above the collection size, random schedules); plus walks after random "
+                       "histories of the trait's write operations; each case runs on every model server of its token scheme "
                        "(6 last-key servers, waste's index scheme); one evaluation = one followed token chain; "
                        "non-trivial = more than one request, an error or a panic; distinct = distinct (server, n, "
                        "size, token class, id set)" % ("0..60" if thorough else "0..12, 24, 25, 49..51, 60, 3 random"))
@@ -115,6 +117,15 @@ def signature(o, clause):
     if o["k"] == "tok":
         return "C15/%s/%s/token=%s" % (o["srv"], clause, o["tclass"])
     cls = size_class(o["size"])
+    if o["k"] == "sched":
+        # how the page size changes along the chain
+        sz = [DEFAULT if x == 0 else min(x, MAX) for x in o["sizes"]]
+        kind = "grows" if sz == sorted(sz) else "shrinks" if sz == sorted(sz, reverse=True) else "mixed"
+        if any(b >= o["n"] > a for a, b in zip(sz, sz[1:])):
+            kind += "-to-whole-collection"
+        if 0 in o["sizes"]:
+            kind += "-with-default"
+        return "C15/%s/%s/changing-page-size/%s" % (o["srv"], clause, kind)
     if o["k"] == "hist":
         # the writes that came before the walk: kinds that were refused / accepted
         refused = sorted(set(w["kind"] for w in o["ops"] if w["sup"] and not w["ok"]))
